@@ -52,6 +52,7 @@ func init() {
 			{Name: "input-map-mutated", File: "cmd/serf/command/agent/config.go", Func: "func MergeConfig(", Old: "\t\ttags := make(map[string]string, len(a.Tags)+len(b.Tags))\n\t\tmaps.Copy(tags, a.Tags)\n\t\tmaps.Copy(tags, b.Tags)\n\t\tresult.Tags = tags\n", New: "\t\tif result.Tags == nil {\n\t\t\tresult.Tags = make(map[string]string)\n\t\t}\n\t\tmaps.Copy(result.Tags, b.Tags)\n", Expect: "R3"},
 			{Name: "lists-b-then-a", File: "cmd/serf/command/agent/config.go", Func: "func MergeConfig(", Old: "\tresult.StartJoin = append(result.StartJoin, a.StartJoin...)\n\tresult.StartJoin = append(result.StartJoin, b.StartJoin...)\n", New: "\tresult.StartJoin = append(result.StartJoin, b.StartJoin...)\n\tresult.StartJoin = append(result.StartJoin, a.StartJoin...)\n", Expect: "R2"},
 			{Name: "earlier-wins", File: "cmd/serf/command/agent/config.go", Func: "func MergeConfig(", Old: "\tif b.Profile != \"\" {\n", New: "\tif b.Profile != \"\" && a.Profile == \"\" {\n", Expect: "R2"},
+			{Name: "dirwalk-skips-symlinks", File: "cmd/serf/command/agent/config.go", Func: "func ReadConfigPaths(", Old: "\t\t\tif fi.IsDir() {\n\t\t\t\tcontinue", New: "\t\t\tif !fi.Mode().IsRegular() {\n\t\t\t\tcontinue", Expect: "R4|dirwalk"},
 			{Name: "fold-acc-second", File: "cmd/serf/command/agent/config.go", Func: "func ReadConfigPaths(", Old: "\t\t\tresult = MergeConfig(result, config)\n\t\t\tcontinue", New: "\t\t\tresult = MergeConfig(config, result)\n\t\t\tcontinue", Expect: "R4"},
 			{Name: "list-appended-in-place", File: "cmd/serf/command/agent/config.go", Func: "func MergeConfig(", Old: "\tresult.RetryJoin = make([]string, 0, len(a.RetryJoin)+len(b.RetryJoin))\n\tresult.RetryJoin = append(result.RetryJoin, a.RetryJoin...)\n", New: "", Expect: "R"},
 		},
@@ -822,6 +823,31 @@ func runC31(c *an.Ctx) {
 		}
 		okSort := len(an.CallsTo(rp, "sort.Sort", "sort.Slice", "sort.Strings", "slices.SortFunc")) >= 1
 		c.Add(okSort, "R4", "fold:sorted-dir", rp, "directory entries are sorted before they are merged", "call enumeration")
+		// closed set of skip conditions in the directory walk: an entry is passed over without being merged
+		// only when it is a directory or its name does not end in .json (a symlinked .json file is merged)
+		hdr := an.EdgesWhere(rp, func(f an.Cmp) bool {
+			return f.Op == "<" && strings.HasPrefix(f.R, "len(os.(*File).Readdir(")
+		})
+		c.Floor("R4", "directory loops in ReadConfigPaths", len(hdr), 1)
+		var skips []an.Edge
+		for _, in := range an.FindInstrs(rp, func(in ssa.Instruction) bool {
+			call, ok := in.(*ssa.Call)
+			return ok && call.Call.IsInvoke() && call.Call.Method.Name() == "IsDir" && strings.HasPrefix(an.Path(call.Call.Value), "os.(*File).Readdir(")
+		}) {
+			skips = append(skips, an.EdgesImplying(rp, an.Cmp{L: an.Path(in.(ssa.Value)), Op: "==", R: "c:true"})...)
+		}
+		for _, in := range an.CallsTo(rp, "strings.HasSuffix") {
+			a := an.CallOf(in).Args
+			if str, ok := an.ConstString(a[1]); ok && str == ".json" && strings.HasPrefix(an.Path(a[0]), "invoke:Name(os.(*File).Readdir(") {
+				skips = append(skips, an.EdgesImplying(rp, an.Cmp{L: an.Path(in.(ssa.Value)), Op: "==", R: "c:false"})...)
+			}
+		}
+		isMerge := func(in ssa.Instruction) bool { return an.IsCallTo(in, "MergeConfig") }
+		for _, h := range hdr {
+			head := h.From.Instrs[len(h.From.Instrs)-1]
+			bad := an.ReachFromBlock(rp, h.To(), &an.Cut{Instrs: isMerge, Edges: skips}, func(in ssa.Instruction) bool { return in == head })
+			c.Add(bad == nil, "R4", "dirwalk:skip-only-dirs-and-non-json", head, "a directory entry is passed over without being merged only when it is a directory or its name lacks .json", "reach/cut from the loop body back to the loop head")
+		}
 	}
 }
 
